@@ -23,7 +23,8 @@ def main():
     if not os.path.isdir(repo):
         rc, out = sh("git -C /repo worktree add --detach %s HEAD" % repo); assert rc == 0, out
     head = sh("git -C /repo rev-parse HEAD")[1].strip()
-    sh("git checkout -q --detach %s && git reset -q --hard" % head, cwd=repo)
+    rc, out = sh("git reset -q --hard && git checkout -q --detach %s && git reset -q --hard" % head, cwd=repo)
+    assert rc == 0 and sh("git rev-parse HEAD", cwd=repo)[1].strip() == head, out
     runner = MX + "/runner"
     if not os.path.isdir(runner):
         os.makedirs(runner)
